@@ -31,6 +31,12 @@ def numeric_leaves():
                 out.append(("f", b - 1))
             except OverflowError:
                 pass
+    # big integers as a peer may pad them (high-order zero digits): the decoder keeps the digits it was given
+    for n in (1, -1, 255, 2**32 + 2, -(2**53) - 1, 2**63, -2**63, 2**64 + 1):
+        d = abs(n).to_bytes(max(1, (abs(n).bit_length() + 7) // 8), "little")
+        for total in (len(d) + 1, 9, 12):
+            if total > len(d):
+                out.append(("g", n < 0, d + bytes(total - len(d))))
     out += [fl(0.0), fl(-0.0), fl(0.5), fl(-0.5), fl(1.5), fl(5e-324), fl(1.7976931348623157e308), fl(-1.7976931348623157e308)]
     seen, res = set(), []
     for t in out:
